@@ -130,6 +130,8 @@ pub fn run(rep: &mut Report) {
         let seed = subseed(rep.seed, "C03/S", &[ci as u64]);
         let kind = *kind;
         let m = *m;
+        let reuse = mix(&[ci as u64, rep.seed, 0xC03]) % 2 == 0;
+        let cell = if reuse { format!("{}/reused", cell) } else { cell };
         let (rs, trials) = staged(seed, tt, 3, &targets, |rng, out| {
             let (ids, _) = fresh_ids_distinct_hash(rng, n, kind);
             let mut a: Vec<u64> = ids[..s.a_only].to_vec();
@@ -137,20 +139,34 @@ pub fn run(rep: &mut Report) {
             let mut b: Vec<u64> = ids[s.a_only..].to_vec();
             shuffle(&mut a, rng);
             shuffle(&mut b, rng);
-            let mut ska = make_usk(kind, m);
-            ska.sketch_slice(&a);
-            let mut skb = make_usk(kind, m);
-            for x in &b {
-                skb.sketch(*x);
-            }
-            let ba = ska.bits();
-            let bb = skb.bits();
+            let (ba, bb) = if reuse {
+                // the reuse pattern recommended by the README: one sketcher, reinit between sets (after an unrelated first set)
+                let mut sk = make_usk(kind, m);
+                let njunk = if rng.random_range(0..2) == 0 { 3 * m + 10 } else { 2 };
+                sk.sketch_slice(&fresh_ids(rng, njunk, 0));
+                sk.reinit();
+                sk.sketch_slice(&a);
+                let ba = sk.bits();
+                sk.reinit();
+                for x in &b {
+                    sk.sketch(*x);
+                }
+                (ba, sk.bits())
+            } else {
+                let mut ska = make_usk(kind, m);
+                ska.sketch_slice(&a);
+                let mut skb = make_usk(kind, m);
+                for x in &b {
+                    skb.sketch(*x);
+                }
+                (ska.bits(), skb.bits())
+            };
             let eq = ba.iter().zip(bb.iter()).filter(|(x, y)| x == y).count();
             let x = eq as f64 / m as f64;
             out[0] = x;
             out[1] = (x - j) * (x - j);
         });
-        let case = json!({"kind": kind.name(), "m": m, "shape": s.name, "a_only": s.a_only, "b_only": s.b_only, "both": s.both, "J": j});
+        let case = json!({"kind": kind.name(), "m": m, "shape": s.name, "a_only": s.a_only, "b_only": s.b_only, "both": s.both, "J": j, "one_sketcher_reused_with_reinit": reuse});
         if ci < 2 {
             rep.sample(case.clone());
         }
